@@ -74,7 +74,9 @@ Fixpoint has_type (fuel : nat) (t : ty) (v : value) : bool :=
   end end.
 
 (* ---------- syntax ---------- *)
-Inductive binop := Add | Sub | Mul | Div | Mod | BAnd | BOr | BXor | Pow.
+Inductive binop := Add | Sub | Mul | Div | Mod | BAnd | BOr | BXor | Pow | DMul | DDiv.   (* DMul/DDiv: decimal * and / *)
+Inductive deck := ToDec | FromDec | Floor | Ceil.
+Definition DEC : Z := 10 ^ 10.      (* decimals are integers scaled by 10^10, 168 bits signed *)
 Inductive cmpop := Lt | Le | Gt | Ge | Eq | Ne.
 Inductive tbase := BLoc (x : nat) | BSto (x : nat) | BTra (x : nat).
 
@@ -102,6 +104,7 @@ Inductive expr :=
 | EList (l : list expr)                (* [a, b, ...] or Struct(f=a, ...) *)
 | EPop (b : tbase) (p : list (expr + nat))    (* target.pop(); path element = inl index-expr | inr field *)
 | EShift (lft : bool) (t : ty) (a b : expr)   (* a << b / a >> b on uint256 / int256: never reverts *)
+| EDec (k : deck) (t : ty) (a : expr)  (* convert(int, decimal) / convert(decimal, t) / floor / ceil *)
 | EConcat (a b : expr)                 (* concat(a, b) on Bytes *)
 | ESlice (a start len : expr).         (* slice(a, start, len) on Bytes: reverts unless start + len <= len(a) *)
 
@@ -272,6 +275,8 @@ Definition shift_val (lft : bool) (bits : Z) (sg : bool) (a b : Z) : Z :=
 Definition arith (op : binop) (bits : Z) (sg : bool) (a b : Z) : option Z :=
   let chk z := if in_range bits sg z then Some z else None in
   match op with
+  | DMul => chk (Z.quot (a * b) DEC)
+  | DDiv => if b =? 0 then None else chk (Z.quot (a * DEC) b)
   | Pow => if b <? 0 then None else
            match pow_val a b with
            | Some v => chk v
@@ -461,6 +466,22 @@ Fixpoint eval (fuel : nat) (e : expr) (s : state) {struct fuel} : R value :=
       match t, va, vb with
       | TInt bits sg, VInt x, VInt y => ret (VInt (shift_val lft bits sg x y)) s2
       | _, _, _ => Fail Stuck
+      end
+  | EDec k t a =>
+      do va, s1 <- eval f a s;
+      match va with
+      | VInt z =>
+          match k with
+          | ToDec => if in_range 168 true (z * DEC) then ret (VInt (z * DEC)) s1 else Fail Revert
+          | FromDec =>
+              match t with
+              | TInt bits sg => if in_range bits sg (Z.quot z DEC) then ret (VInt (Z.quot z DEC)) s1 else Fail Revert
+              | _ => Fail Stuck
+              end
+          | Floor => ret (VInt (z / DEC)) s1
+          | Ceil => ret (VInt (- ((- z) / DEC))) s1
+          end
+      | _ => Fail Stuck
       end
   | EConcat a b =>
       do va, s1 <- eval f a s;
@@ -772,7 +793,7 @@ Fixpoint depth_e (e : expr) : nat :=
   | EBin _ _ a b | ECmp _ a b | EAnd a b | EOr a b | EIdx a b | EMin a b | EMax a b | EConcat a b | EShift _ _ a b =>
       S (Nat.max (depth_e a) (depth_e b))
   | ESlice a b c => S (Nat.max (depth_e a) (Nat.max (depth_e b) (depth_e c)))
-  | ENot a | ENeg _ a | EFld a _ | ELen a | EConv _ a => S (depth_e a)
+  | ENot a | ENeg _ a | EFld a _ | ELen a | EConv _ a | EDec _ _ a => S (depth_e a)
   | EIfExp c a b => S (Nat.max (depth_e c) (Nat.max (depth_e a) (depth_e b)))
   | ECall _ args => S (S (depth_l args))     (* + the callee, accounted per call level *)
   | EList l => S (depth_l l)
